@@ -39,5 +39,6 @@ let () =
   let f = match mode with
     | "diff" -> mode_diff
     | "adapt" -> M_adapt.run_line
+    | "ovec" -> M_ovec.run_line
     | _ -> failwith ("unknown mode " ^ mode) in
   iter_lines stdin (fun line -> if line <> "" then f line)
